@@ -34,13 +34,18 @@ LEVEL_TEXT = ("Lean 4 theorems, for every chunking (no size bound). arange (afte
               "< 2^53 the float plan is the unshifted one, num is exact and all values are the exact ones; arange_f_num_not_exact / "
               "arange_f_exact_refuted show that in general float num is NumPy's ceil of a rounded quotient, not the exact one (dask "
               "and NumPy use the same formula: validated, not proved); old_arange_plan_refuted records the repaired defect. "
-              "linspace_den (every element a function of its global index), eye_den (any row/column chunking, any k, incl. the "
+              "linspace_den (every element a function of its global index; exact rationals), linspace_any_arith_den / linspace_f_den "
+              "(the same for any arithmetic, binary64 incl. the underflowing-step branch: float linspace is chunk-invariant bit for "
+              "bit, its divisions never raise; blocks diffed bit for bit against the binary64 model), binary64_round_spec (every "
+              "rounding of the model returns a double nearest to the exact result, ties to even - all inputs), "
+              "eye_den (any row/column chunking, any k, incl. the "
               "np.zeros blocks), diag_den (1-d, k=0), diag_k_den (1-d, any k: constant pad around it), diag_2d_fast_den, "
               "diagonal_den (2-d walk: terminates, np.diagonal's lengths, exactly the diagonal positions in order), diagonal_nd_den "
               "(any ndim, normalised axes, any offset: the assembled result reads NumPy's positions; free axes' blocks carried "
               "along), diagonal_nd_tasks, normAxes_spec, grid_den (fromfunction: any function of the global index), indices_den, "
               "indices_axis0, meshgrid_den (xy/ij, sparse/dense), full_den (ones/zeros/full(_like)), tri_den, chunks_sum_shape (via "
-              "C23). Validated only (differentially, vs NumPy, exact comparison): dtypes, integer floor of linspace, binary32 arange, "
+              "C23). Validated only (differentially, vs NumPy, exact comparison): dtypes, integer floor of linspace, binary32 "
+              "arange/linspace, that the model's division equals rounding the exact quotient (proved for exact quotients only), "
               "the pad/stack/broadcast/blockwise layers underneath diag(v,k)/indices/meshgrid/fromfunction (their block plans are "
               "diffed per block), auto/byte-string chunk specs, *_like argument handling, empty(_like) (shape/dtype only).")
 LEVEL_NOTE = ("Trusted: Lean kernel + standard axioms; the harness; NumPy kernels on ONE block (np.eye, np.diag, np.diagonal, "
@@ -383,6 +388,8 @@ def case_linspace(ctx, inp):
         ctx.branch("linspace:int-dtype")
     if num > 1 and float(rstep) == 0.0 and pa != pb:
         ctx.branch("linspace:step-underflows")
+    if ep and num > 1 and fa is not None and fa + (num - 1) * float(rstep) != fb:
+        ctx.branch("linspace:pinned-endpoint-differs-from-formula")
     if isinstance(a, int) and isinstance(b, int) and max(abs(a), abs(b)) > 2 ** 53:
         ctx.branch("linspace:int-endpoints>2**53")
     # since `fix: da.linspace computes every element from its global index` the result is NumPy's bit for bit
@@ -1002,6 +1009,17 @@ def _gen_linspace(ctx):
         # denormal ranges ((stop-start)/div underflows to 0.0: NumPy divides before multiplying) and integer endpoints
         # beyond 2**53 (NumPy subtracts them as floats)
         num = rng.choice([0, 1, 2, 3, 4, 5, 7, 9, 13])
+        if rng.random() < 0.3:
+            # endpoints for which start + (num-1)*step does not round to stop: only the pinned last element gives stop
+            num = rng.choice([2, 2, 3, 5, 6, 7])
+            for _t in range(50):
+                fa = rng.choice([rng.uniform(-1, 1), rng.randint(-99, 99) / 1000, rng.uniform(-1e3, 1e3)])
+                fb = rng.choice([rng.uniform(-1, 1) * 10 ** rng.randint(-3, 3), rng.randint(-99, 99) / 7])
+                if fa + (num - 1) * ((fb - fa) / (num - 1)) != fb:
+                    break
+            yield "linspace", {"start": _hx(fa), "stop": _hx(fb), "num": num, "endpoint": True,
+                               "chunks": rng.choice([1, 2, 3, "auto"]), "dtype": None}
+            continue
         if rng.random() < 0.5:
             tiny = 5e-324
             a = rng.choice([0.0, tiny * rng.randint(-5, 5), 1.0, -2.5, rng.uniform(-1, 1)])
